@@ -313,6 +313,16 @@ def sender_oracle(line, impl, clauses):
                 return r
     nblk = len(c.file) // c.b + 1
     consumed = len(groups) - 1
+    if "budget" in clauses and st == "failed":
+        # the sender may give up only after MAX_RETRIES consecutive failed receive attempts (or on the peer's ERROR / a bad reply to its OACK):
+        # a run that saw fewer failed attempts altogether cannot contain such a streak, whatever the negotiated interval
+        evs = c.events[:consumed]
+        hs_bad = c.chk and evs and ((evs[0][0] == "error") or (evs[0][0] == "ack" and evs[0][1] != 0) or evs[0][0] == "fail")
+        if not hs_bad and not any(k == "error" for k, n, dt in evs):
+            fails = sum(1 for k, n, dt in evs if k in ("fail", "other"))
+            if fails < MAX_RETRIES:
+                return ("the sender gave up after %d failed receive attempt(s) in all (budget: %d consecutive ones), time-out %d ms" % (fails, MAX_RETRIES, c.tmo),
+                        "gave-up-within-budget")
     if "termination" in clauses:
         # ERROR ends at once
         for i, (k, n, dt) in enumerate(c.events[:consumed]):
@@ -392,6 +402,8 @@ def window_clauses(c, groups, st):
     in-window ACK (resuming at n+1), or when the timeout has elapsed since the last transmission;
     duplicate / stale ACKs cause neither a transmission nor an abort."""
     last = None          # numbers of the last burst
+    last_abs = None      # absolute index (1-based, not reduced modulo 65536) of the first block of the last burst
+    nblk = len(c.file) // c.b + 1 if c.b >= 1 else None
     since = None
     consumed = len(groups) - 1
     start = 1 if c.chk else 0
@@ -407,6 +419,12 @@ def window_clauses(c, groups, st):
             k, n, dt = c.events[i - 1]
             since = (since or 0) + dt
             inwin = k == "ack" and last is not None and n in last
+            acked_abs = (last_abs + last.index(n)) if (inwin and last_abs is not None) else None
+            if inwin and not nums and acked_abs is not None and nblk is not None and acked_abs < nblk and st != "failed":
+                # an acknowledgement for a block of the outstanding window that is not the last block of the file: the window slides and
+                # transmission resumes - it is never taken for a stale one, whatever number it carries
+                return ("ACK %d acknowledges block %d of the outstanding window (%d blocks in all), but nothing was transmitted in response" % (n, acked_abs, nblk),
+                        "in-window-ack-ignored")
             if nums:
                 if inwin:
                     if nums[0] != (n + 1) % 65536:
@@ -419,6 +437,11 @@ def window_clauses(c, groups, st):
             elif k == "ack" and not inwin and i == consumed and st == "failed":
                 return ("duplicate/stale ACK aborts the transfer", "stale-ack-abort")
         if nums:
+            if last is None:
+                last_abs = 1
+            elif i >= 1 and i > start and c.events[i - 1][0] == "ack" and c.events[i - 1][1] in last and last_abs is not None:
+                last_abs = last_abs + last.index(c.events[i - 1][1]) + 1
+            # (a time-out retransmission repeats the window: last_abs unchanged)
             last = nums
             since = 0
     return None
@@ -495,6 +518,23 @@ def receiver_oracle(line, impl, clauses):
             ln = int(fin.split(":")[0])
             if ln > len(acc) or fin != "%d:%d" % (ln, fnv(acc[:ln])):
                 return ("kept partial file is not a prefix of the bytes received", "not-prefix")
+    if "budget" in clauses and st == "failed":
+        # "fewer than the retry budget of consecutive receive attempts fail": the receiver may give up only after MAX_RETRIES failed attempts
+        # with no block accepted in between (or on the peer's ERROR)
+        run, worst, kk, err = 0, 0, 0, False
+        for kind, n, p in c.events[:len(groups)]:
+            if kind == "error":
+                err = True
+                break
+            if kind == "data":
+                if n == (kk + 1) % 65536:
+                    kk += 1
+                    run = 0
+            else:
+                run += 1
+                worst = max(worst, run)
+        if not err and worst < MAX_RETRIES:
+            return ("the receiver gave up although at most %d consecutive receive attempts failed (budget %d)" % (worst, MAX_RETRIES), "gave-up-within-budget")
     if "termination" in clauses:
         run = 0
         for i, (kind, n, p) in enumerate(c.events[:len(groups)]):
@@ -725,6 +765,11 @@ class C08(WorkerProp):
         for (b, w) in ([(65464, 150)] if tier == "quick" else [(65464, 150), (8192, 2000), (65464, 1100)]):
             evs = ["D%d:gen:%d:%d" % (k % 65536, b, k) for k in range(1, w + 1)] + ["D%d:gen:5:%d" % ((w + 1) % 65536, w + 1)]
             L.append("rcv %d %d 1 1 len %s" % (b, w, " ".join(evs)))
+        # ... and one window beyond 64 MiB in every tier (zero bytes: cheap to describe; the model answers `skip` above 30 MB, the statement -
+        # an ACK exactly when the window is full, over a file that holds it all - is evaluated on the implementation)
+        b, w = 65464, 1100
+        evs = ["D%d:zero:%d" % (k, b) for k in range(1, w + 1)] + ["D%d:zero:5" % (w + 1)]
+        L.append("rcv %d %d 1 1 len %s" % (b, w, " ".join(evs)))
         return L
 
     def compare(self, line, model, impl):
@@ -832,6 +877,10 @@ class C16(WorkerProp):
         # N = 254 (repeat amount 255; the 1 ms delay between copies is real time, so only a few tiny transfers)
         L += ["snd 8 2 5000 255 0 gen:12:1 A2@0", "snd 8 1 5000 255 1 gen:3:1 A0@0 A1@0", "snd 8 1 5000 255 1 gen:3:1 A4@0",
               "rcv 8 2 255 1 full D1:0102030405060708 D2:01", "rcv 8 1 255 1 full D1:0102030405060708 D1:0102030405060708 D2:-"]
+        # every residue of the repeat amount modulo 8 and 16, and the powers of two (the 1 ms pause per copy is real time: tiny transfers)
+        for rp in (5, 6, 7, 8, 9, 15, 16, 17, 24, 32, 64, 128, 248):
+            L.append("snd 8 2 5000 %d 0 gen:12:1 A2@0" % rp)
+            L.append("rcv 8 2 %d 1 full D1:0102030405060708 D2:01" % rp)
         # across the block-number wrap in duplicate mode: the acknowledgement of block 65536 carries the number 0 and is an acknowledgement of a
         # data block like any other (1-byte blocks, windows of 4096 and 1024: the ACK lands exactly on 65536)
         for w, rp in [(4096, 2), (1024, 3)]:
@@ -841,7 +890,7 @@ class C16(WorkerProp):
         # every window size, both port modes, downloads and uploads)
         from .p_server import rq
         root = (self.sandbox + "/k0").encode().hex()
-        for flags in ["1", "2", "s1", "s3", "o2"]:
+        for flags in ["1", "2", "s1", "s3", "o2", "7", "s15"]:
             for opts in [(), (("blksize", 8),), (("windowsize", 2),), (("blksize", 8), ("windowsize", 4)), (("windowsize", 3), ("timeout", 2)),
                          (("tsize", 0),), (("windowsize", 1),)]:
                 L.append("req %s %s srv/f=gen:40:3 %s" % (root, flags, rq("rrq", b"f", opts).hex()))
@@ -904,6 +953,10 @@ class C16(WorkerProp):
 def wrap_cases(tier, rng):
     """transfers beyond 65535 blocks, b = 1 (worker level), windows before/at/after the wrap, faults in the wrap window"""
     L = []
+    # windows wider than half the number space: after a full-window ACK S and a partial ACK, the slid window contains block S + 65536 -
+    # its ACK carries the number S again and is an ACK for a block of THIS window
+    L.append("snd 1 65535 5000 1 0 gen:131075:1 A65535@0 A0@0 A65535@0 A4@0")
+    L.append("snd 1 40000 5000 1 0 gen:120003:7 A40000@0 A40000@0 A40001@0 A40000@0 A14464@0 A54464@0")
     sizes = [65534, 65535, 65536, 65537] if tier == "quick" else [65533, 65534, 65535, 65536, 65537, 65538, 131071, 131072]
     for flen in sizes:
         nblocks = flen + 1
@@ -1193,6 +1246,13 @@ class C18(Prop):
     def generate(self, tier, rng):
         L = exhaustive_window(4 if tier == "quick" else 5)
         L += [gen_window(rng) for _ in range(3000 if tier == "quick" else 100000)]
+        # the largest sizes: the length is reported as a 16-bit number, a window of 65535 pieces is legal and a full one refuses one more
+        # (the list-based model appends in linear time: a window filled by 65535 single adds costs it half a minute, so that one is thorough-only)
+        for size in (255, 256, 257, 65534, 65535):
+            L.append("win %d 1 r gen:%d:3 f l F a01 l F E r1 l F a02 l F a03 l f l F" % (size, size + 10))
+            if size < 1000 or (tier == "thorough" and size == 65535):
+                L.append("win %d 1 w - %s l F a08 l F E a09 l r1 l a0a l e l E a0b l" % (size, " ".join(["a07"] * size)))
+                L.append("win %d 2 a 0102030405 %s l F a08 l F f l" % (size, " ".join(["a0707"] * size)))
         L += ["win 2 5 r 48656c6c6f2c20776f726c6421 f g r1 g f g f g l f g",
               "win 3 5 a - a48656c6c6f a2c20776f72 a6c6421 g e g l",
               "win 2 4 r 0102030405060708 f g r2 f g r1 f g r1 f g"]
@@ -1287,6 +1347,12 @@ class C13(WorkerProp):
                     if "o" in flags:
                         # --overwrite: the aborted upload replaces a file that existed before (it is truncated at once)
                         L.append("abort %s %s %s %s %d" % (root, flags, fs, rq("wrq", b"old", opts).hex(), nb))
+        # a later write request for the name of a completed upload that is NOT accepted (an option value the server cannot honour) leaves the
+        # completed upload alone - with --overwrite too, in both clean modes and port modes
+        for flags in ["o", "ok", "so", "sok", "-", "k"]:
+            for bad in [(("blksize", 7),), (("timeout", 0),), (("windowsize", 0),), (("blksize", 65465), ("windowsize", 2)), (("timeout", 256), ("tsize", 5))]:
+                for nm in [b"old", b"sub/old2"]:
+                    L.append("req %s %s srv/old=gen:100:9,srv/sub/old2=gen:300:4 %s" % (root, flags, rq("wrq", nm, bad).hex()))
         # the code of the aborting ERROR packet must not matter, in either port mode (in single-port mode it travels through the listener)
         for flags in ["-", "s", "k", "sk"]:
             for code in range(8):
@@ -1305,6 +1371,19 @@ class C13(WorkerProp):
     def oracle(self, line, impl):
         if line.startswith("abort "):
             return self.abort_oracle(line, impl)
+        if line.startswith("req "):
+            from .p_server import Case, parse_req_obs, lst
+            if impl in ("abort", "panic") or not impl.startswith("r1="):
+                return ("server died or no observation: " + impl[:60], "died")
+            c = Case(line)
+            r1, conv, fs = parse_req_obs(impl)
+            if " oack " in r1 or r1.endswith("ack 0"):
+                return None
+            gone = sorted(lst(c.listing()) - lst(fs))
+            if gone:
+                return ("a write request that was not accepted (%s) removed or changed a completed upload: %s" % (r1, ",".join(gone)[:100]),
+                        "unaccepted-request-harms-completed-upload")
+            return None
         if line.startswith("dupwrq "):
             t = line.split(" ")
             f = content(t[4])
@@ -1415,15 +1494,17 @@ class C13(WorkerProp):
         return None
 
     def nontrivial(self, line, impl):
-        return line.startswith("dupwrq") or line.startswith("abort") or " | " in impl
+        return line.startswith(("dupwrq", "abort", "req ")) or " | " in impl
 
     def classify(self, line, impl, res):
         if line.startswith("abort"):
             res.count("server-abort:flags=" + line.split(" ")[2])
         elif line.startswith("dupwrq"):
             res.count("dupwrq:clean=" + line.split(" ")[3])
+        elif line.startswith("req "):
+            res.count("unaccepted-request:flags=" + line.split(" ")[2])
         else:
             WorkerProp.classify(self, line, impl, res)
 
     def shrink(self, line):
-        return [] if line.startswith(("dupwrq", "abort")) else WorkerProp.shrink(self, line)
+        return [] if line.startswith(("dupwrq", "abort", "req ")) else WorkerProp.shrink(self, line)
